@@ -262,11 +262,83 @@ func main() {
 			continue
 		}
 		_ = i
+		// ID-returning methods per receiver type: func (g *T) M() ID / (ID, error)
+		type idMethod struct {
+			name    string
+			withErr bool
+		}
+		idMethods := map[string][]idMethod{}
+		for _, fc := range p.files {
+			for _, d := range fc.f.Decls {
+				fd, ok := d.(*ast.FuncDecl)
+				if !ok || fd.Recv == nil || len(fd.Recv.List) != 1 || !fd.Name.IsExported() {
+					continue
+				}
+				if fd.Type.Params != nil && len(fd.Type.Params.List) > 0 {
+					continue
+				}
+				rt := fd.Recv.List[0].Type
+				if st, ok := rt.(*ast.StarExpr); ok {
+					rt = st.X
+				}
+				tn, ok := rt.(*ast.Ident)
+				if !ok || !tn.IsExported() || tn.Name == "ID" {
+					continue
+				}
+				res := fd.Type.Results
+				if res == nil || len(res.List) < 1 || len(res.List) > 2 || len(res.List[0].Names) > 1 {
+					continue
+				}
+				if id, ok := res.List[0].Type.(*ast.Ident); !ok || id.Name != "ID" {
+					continue
+				}
+				withErr := false
+				if len(res.List) == 2 {
+					if id, ok := res.List[1].Type.(*ast.Ident); !ok || id.Name != "error" || len(res.List[1].Names) > 1 {
+						continue
+					}
+					withErr = true
+				}
+				idMethods[tn.Name] = append(idMethods[tn.Name], idMethod{fd.Name.Name, withErr})
+			}
+		}
 		for _, fc := range p.files {
 			for _, d := range fc.f.Decls {
 				fd, ok := d.(*ast.FuncDecl)
 				if !ok || fd.Recv != nil || !fd.Name.IsExported() || fd.Name.Name == "RandomID" || fd.Type.TypeParams != nil {
 					continue
+				}
+				// a constructor of an object that hands out IDs: func NewT() *T / T / (*T, error).
+				// Every call of the generated source makes a fresh object and draws up to four IDs
+				// from it (objects are not shared between tasks: nothing says they may be)
+				if (fd.Type.Params == nil || len(fd.Type.Params.List) == 0) && fd.Type.Results != nil && len(fd.Type.Results.List) >= 1 && len(fd.Type.Results.List) <= 2 && len(fd.Type.Results.List[0].Names) <= 1 {
+					rt := fd.Type.Results.List[0].Type
+					if st, ok := rt.(*ast.StarExpr); ok {
+						rt = st.X
+					}
+					ctorErr := false
+					okCtor := true
+					if len(fd.Type.Results.List) == 2 {
+						if id, ok := fd.Type.Results.List[1].Type.(*ast.Ident); !ok || id.Name != "error" || len(fd.Type.Results.List[1].Names) > 1 {
+							okCtor = false
+						}
+						ctorErr = true
+					}
+					if tn, ok := rt.(*ast.Ident); ok && okCtor && len(idMethods[tn.Name]) > 0 {
+						for _, m := range idMethods[tn.Name] {
+							mk := fmt.Sprintf("g := uu.%s()", fd.Name.Name)
+							if ctorErr {
+								mk = fmt.Sprintf("g, err := uu.%s(); if err != nil { return nil }", fd.Name.Name)
+							}
+							draw := fmt.Sprintf("ids = append(ids, g.%s())", m.name)
+							if m.withErr {
+								draw = fmt.Sprintf("id, err := g.%s(); if err != nil { break }; ids = append(ids, id)", m.name)
+							}
+							sources += fmt.Sprintf("\tfunc(n int) []uu.ID { %s; var ids []uu.ID; for i := 0; i < n && i < 4; i++ { %s }; return ids },\n", mk, draw)
+							srcNames += fmt.Sprintf("%q, ", "uu."+fd.Name.Name+"()."+m.name)
+						}
+						continue
+					}
 				}
 				// an API that lends the generator to a callback: func X(f func(*rand.Rand)) [error]
 				if ps := fd.Type.Params; ps != nil && len(ps.List) == 1 && len(ps.List[0].Names) <= 1 {
